@@ -1,14 +1,16 @@
 package props
 
 import (
-	"sync"
 	"crypto/md5"
 	"crypto/sha256"
 	"crypto/sha512"
 	"errors"
 	"fmt"
+	"github.com/hashicorp/go-hclog"
 	"hash"
+	"simworld/goplugin/runner"
 	"strings"
+	"sync"
 	"time"
 
 	plugin "simworld/goplugin"
@@ -103,6 +105,10 @@ func init() {
 					out = append(out, sp("C13", fmt.Sprintf("shared/%s/%s", hn, sc), seed, P("hash", hn, "sum", "exact", "size", "3000", "shared", sc)))
 				}
 			}
+			for _, sum := range []string{"exact", "flip:0", "empty", "prefix:5", "extend:1"} {
+				out = append(out, sp("C13", "runner/"+sum, seed, P("hash", "sha256", "sum", sum, "size", "500", "launch", "runner")))
+			}
+			out = append(out, sp("C13", "runner/nilhash", seed, P("hash", "nil", "sum", "exact", "size", "500", "launch", "runner")))
 			out = append(out, sp("C13", "enum/nilhash/exact", seed, P("hash", "nil", "sum", "exact", "size", "10")))
 			out = append(out, sp("C13", "enum/nilhash/empty", seed, P("hash", "nil", "sum", "empty", "size", "10")))
 			for _, f := range []string{"missing", "eio:0", "eio:5", "eio:4096", "eio:8999", "short:1", "short:7", "empty-file"} {
@@ -260,8 +266,14 @@ func runC13Parallel(r *h.Run) {
 	var wg sync.WaitGroup
 	var og, ob h.Outcome
 	wg.Add(2)
-	go k.Trap(func() { defer wg.Done(); og = r.Do("Start[genuine]", 90*time.Second, func() (any, error) { return good.Start() }) })
-	go k.Trap(func() { defer wg.Done(); ob = r.Do("Start[tampered]", 90*time.Second, func() (any, error) { return bad.Start() }) })
+	go k.Trap(func() {
+		defer wg.Done()
+		og = r.Do("Start[genuine]", 90*time.Second, func() (any, error) { return good.Start() })
+	})
+	go k.Trap(func() {
+		defer wg.Done()
+		ob = r.Do("Start[tampered]", 90*time.Second, func() (any, error) { return bad.Start() })
+	})
 	wg.Wait()
 	if og.Hung || ob.Hung {
 		r.Violate("hang", "op=Start "+ctx, r.HostStacks("goplugin"))
@@ -391,6 +403,22 @@ func runC13(r *h.Run) {
 	cfg.Cmd = simexec.Command(c.Path)
 	cfg.Cmd.SimName = "plugin"
 	cfg.SecureConfig = &plugin.SecureConfig{Checksum: sum, Hash: mkHash(hn)}
+	runnerCalls := 0
+	if r.Spec.P("launch", "cmd") == "runner" {
+		// a custom runner instead of a command: there is no command path whose
+		// file could be checked, so with a SecureConfig nothing may be launched
+		// at all - whatever the checksum - and the runner is never asked
+		ctx += " launch=runner"
+		rc := c
+		rc.Launch = "runner"
+		inner := r.ClientConfig(rc).RunnerFunc
+		cfg.Cmd = nil
+		cfg.RunnerFunc = func(l hclog.Logger, cmd *simexec.Cmd, tmpDir string) (runner.Runner, error) {
+			runnerCalls++
+			return inner(l, cmd, tmpDir)
+		}
+		matches = false
+	}
 	cl := plugin.NewClient(cfg)
 
 	// kernel invariant: no spawn before the file was read to its end
@@ -399,6 +427,9 @@ func runC13(r *h.Run) {
 		return
 	}
 	spawned := w.ProcByName("plugin") != nil
+	if runnerCalls > 0 {
+		r.Violate("ran-unverified-binary", ctx+" runner-asked", fmt.Sprintf("a SecureConfig is set and there is no command path to verify, yet the custom runner was asked to launch (%d calls; Start err: %v)", runnerCalls, o.Err))
+	}
 	wantSpawn := matches && hn != "nil" && !readFails && len(sum) > 0
 	switch {
 	case spawned && !wantSpawn:
@@ -415,6 +446,8 @@ func runC13(r *h.Run) {
 		w.Probe("expect.refuse")
 		if o.Err == nil {
 			r.Violate("ran-unverified-binary", ctx+" start-ok", "Start succeeded")
+		} else if r.Spec.P("launch", "cmd") == "runner" {
+			// (which error: not specified for a client without a command path)
 		} else {
 			var want error
 			switch {
